@@ -165,9 +165,16 @@ pub fn run(outdir: &Path, tier: &str, seed: u64, shards: usize, replay: Option<S
             let mut blocks: Vec<TypeDef> = vec![];
             for d in q.schema.defs.iter_mut() {
                 if let TypeDef::Object { name, implements, fields } = d {
+                    if fields.len() < 2 && !implements.is_empty() {
+                        blocks.push(TypeDef::Extend { name: name.clone(), implements: vec![implements.pop().unwrap()], fields: vec![] });
+                    }
                     if fields.len() >= 2 {
                         let moved: Vec<FieldDef> = fields.split_off(1);
                         let mut imp: Vec<String> = if implements.len() >= 1 { vec![implements.pop().unwrap()] } else { vec![] };
+                        // ... a second interface, if any, moves into an extension WITHOUT a field block
+                        if implements.len() >= 1 {
+                            blocks.push(TypeDef::Extend { name: name.clone(), implements: vec![implements.pop().unwrap()], fields: vec![] });
+                        }
                         for f in moved {
                             blocks.push(TypeDef::Extend { name: name.clone(), implements: std::mem::take(&mut imp), fields: vec![f] });
                         }
